@@ -204,6 +204,15 @@ def run_clean_writes(chk, F, fs, specs, rule="G1.clean"):
                     if _e7_clean[code][0]:
                         chk.ok(rule, key, sample={"fn": spec.key, "decided_by": _e7_clean[code][1]})
                         continue
+                if not s["ok"] and spec.key in ("vbyte.write_be", "vbyte.write_le"):
+                    # a loop-carried byte (`low_bits = rest & 0x7F`) is beyond the bit-range domain: decide by interpretation
+                    import rules_ivl
+                    ck = ("vbyte", spec.key)
+                    if ck not in _e7_clean:
+                        _e7_clean[ck] = rules_ivl.vbyte_writes_clean(F, fs, spec.key[-2:])
+                    if _e7_clean[ck][0]:
+                        chk.ok(rule, key, sample={"fn": spec.key, "decided_by": _e7_clean[ck][1]})
+                        continue
                 if not s["ok"]:
                     lem = [l for l in lemmas if l[1].search(spec.key) and l[2].search("G1|write_bits#%d" % i)]
                     if lem:
